@@ -158,8 +158,11 @@ Definition metrics (cf : cfg) (c : circuit) : cstate * Z * Z * Z * Z :=
 
 (* ------------------------------------------------------------------------- *)
 (* Service level *)
-Inductive outcome := OOk (fail : bool) | OErr (fail : bool) | OPanic.
-  (* fail = what the failure classifier says about this result *)
+Inductive outcome := OOk (fail : bool) | OErr (fail : bool) | OPanic | OCPanic.
+  (* fail = what the failure classifier says about this result;
+     OPanic  = the inner call panics;
+     OCPanic = the inner call returns a result on which the failure classifier panics
+               (lib.rs: classify() runs after trial.recorded() and before the record_success/record_failure call) *)
 
 Inductive cst :=
 | Created
@@ -222,6 +225,11 @@ Definition poll_running (cf : cfg) (s : st) (i : nat) (start : Z) (tr : option Z
     (* the poll panics; the executor drops the future: inner dropped, guard dropped unrecorded *)
     ((ghandback tr s) <| cs := upd (cs s) i Done |> <| inflight := inflight s - 1 |>
        <| circ := drop_trial tr (circ s) |>,
+     {| r := 5; started := st_now |})
+  | Some OCPanic =>
+    (* the inner call has completed; the classifier panics after trial.recorded(): the guard is
+       dropped as recorded (no hand-back) and nothing is recorded in the circuit *)
+    (s <| cs := upd (cs s) i Done |> <| inflight := inflight s - 1 |>,
      {| r := 5; started := st_now |})
   | Some (OOk f) =>
     (gsync (phase (circ s))
@@ -289,32 +297,38 @@ Definition step_st (cf : cfg) (s : st) (e : ev) : st := fst (step cf s e).
    script = [time_based; wsize; wdur; minc; fnum; fden; slow_on; slow_thr; snum; sden;
              wait_open; permitted; has_fallback; n; (op a b)*]
      op 1 Poll a | 2 Drop a | 3 Advance a | 4 Complete a b | 5 ForceOpen | 6 ForceClosed | 7 Reset
+     op 8 Call a (the call future is created, not polled)
+     events naming a caller outside 0..n-1 are skipped (no trace entry)
      outcome b: 0 ok | 1 ok classified as failure | 2 err (failure) | 3 err classified as
-                success | 4 panic
+                success | 5 ok, and the failure classifier panics on it | anything else: panic
+     min_calls < 0 in the configuration = minimum_number_of_calls not set (defaults to the
+     window size)
    trace = per event [r; started; state; state_sync; metrics.state; total; failures; successes;
                       slow; in-flight; wake mask]   (states: 0 Closed, 1 Open, 2 HalfOpen) *)
 Definition outcome_of (z : Z) : outcome :=
   if z =? 0 then OOk false else if z =? 1 then OOk true else
-  if z =? 2 then OErr true else if z =? 3 then OErr false else OPanic.
+  if z =? 2 then OErr true else if z =? 3 then OErr false else
+  if z =? 5 then OCPanic else OPanic.
 
-Definition ev_of (t : Z * Z * Z) : option ev :=
+Definition ev_of (n : Z) (t : Z * Z * Z) : option ev :=
   let '(op, a, b) := t in
   let i := Z.to_nat a in
-  if op =? 1 then Some (Poll i) else
-  if op =? 2 then Some (Drop i) else
+  let caller := (0 <=? a) && (a <? n) in
+  if op =? 1 then (if caller then Some (Poll i) else None) else
+  if op =? 2 then (if caller then Some (Drop i) else None) else
   if op =? 3 then Some (Advance a) else
-  if op =? 4 then Some (Complete i (outcome_of b)) else
+  if op =? 4 then (if caller then Some (Complete i (outcome_of b)) else None) else
   if op =? 5 then Some ForceOpen else
   if op =? 6 then Some ForceClosed else
   if op =? 7 then Some Reset else
-  if op =? 8 then Some (Advance 0) else None.
+  if op =? 8 then (if caller then Some (Advance 0) else None) else None.
   (* op 8 = the call future of caller a is created (call()) without being polled: nothing
      happens in call() for this layer, so the model treats it as a no-op *)
 
-Fixpoint evs_of (l : list (Z * Z * Z)) : list ev :=
+Fixpoint evs_of (n : Z) (l : list (Z * Z * Z)) : list ev :=
   match l with
   | [] => []
-  | t :: rest => match ev_of t with Some e => e :: evs_of rest | None => evs_of rest end
+  | t :: rest => match ev_of n t with Some e => e :: evs_of n rest | None => evs_of n rest end
   end.
 
 Definition code (s : cstate) : Z := match s with Closed => 0 | Open => 1 | HalfOpen => 2 end.
@@ -333,8 +347,8 @@ Fixpoint run_evs (cf : cfg) (n : nat) (s : st) (evs : list ev) : list Z :=
   end.
 
 Definition cfg_of (sc : list Z) : cfg :=
-  mkCfg (z2b (zn sc 0)) (zn sc 1) (zn sc 2) (zn sc 3) (zn sc 4) (zn sc 5) (z2b (zn sc 6))
+  mkCfg (z2b (zn sc 0)) (zn sc 1) (zn sc 2) (if zn sc 3 <? 0 then zn sc 1 else zn sc 3) (zn sc 4) (zn sc 5) (z2b (zn sc 6))
         (zn sc 7) (zn sc 8) (zn sc 9) (zn sc 10) (zn sc 11) (z2b (zn sc 12)).
 
 Definition run_script (sc : list Z) : list Z :=
-  run_evs (cfg_of sc) (Z.to_nat (zn sc 13)) init (evs_of (chunk3 (skipn 14 sc))).
+  run_evs (cfg_of sc) (Z.to_nat (zn sc 13)) init (evs_of (zn sc 13) (chunk3 (skipn 14 sc))).
